@@ -58,10 +58,13 @@ def run_graphs(ctx, order, prop_assumptions, small=False):
         ctx.tlc_model("MC_YamlGraph", None, cfg_text=CFG % (2, 1, 2, "FALSE"), label="MC_YamlGraph A<=2 B<=1 R<=2 (model only)",
                       workers=16, timeout=3400)
         mruns.append(ctx.tlc_runs[-1])
+    mix = lambda k: ((k * 2654435761) & 0xffffffff) >> 12     # TLC lists cases in a regular order: a plain i % k would always meet the same column
     for i, c in enumerate(cases):
         c["rot"] = i
         c["root"] = "R"
         c["akeys"] = i % 2 == 0          # node-graph legs: some keys are aliases to anchored scalars
+        c["poison"] = mix(i) % 5 == 2        # the process has just rejected documents (bad keys, a value cycle)
+        c["dupanc"] = mix(i + 1) % 4 == 1        # anchors share one name (redefined again and again): identity is the node
         if i % 3 == 1:
             # same graph over keys whose YAML spelling is not canonical: x -> 12 (written 0xc, 1_2, +12 ...), y -> true (True, TRUE)
             ren = {"x": "12", "y": "true"}
